@@ -550,6 +550,13 @@ def _add(r, obs, lena):
             a.scale(rng.choice([1, 2.5, 100]))
         if 0.3 < pre_scaled < 0.6:
             b.scale()
+        if pre_scaled < 0.6 and rng.random() < 0.5:
+            # an operand changed after its scale was computed (its stored scale is stale, which
+            # is the user's business for that operand - not for the sum, a new histogram)
+            Ea = unify_edges(a.edges)
+            pt = [x[0] + (x[1] - x[0]) / 3.0 for x in Ea]
+            a.fill(pt[0] if len(Ea) == 1 else pt, rng.choice([1, 2, 7.5]))
+            obs.count("add_operands_filled_after_scale")
         obs.count("add_operands_scaled_before")
     except Exception:  # pylint: disable=broad-except
         pass
